@@ -378,7 +378,7 @@ func TestRandomCanonical(t *testing.T) {
 		Check:      checkSchema(false),
 		NonTrivial: rich,
 		Classes:    classes,
-		Quick:      900, Thorough: 14000,
+		Quick:      2000, Thorough: 30000,
 	})
 }
 
@@ -390,7 +390,7 @@ func TestRandomLoose(t *testing.T) {
 		Check:      checkSchema(true),
 		NonTrivial: rich,
 		Classes:    classes,
-		Quick:      350, Thorough: 6000,
+		Quick:      700, Thorough: 10000,
 	})
 }
 
@@ -402,7 +402,7 @@ func TestRandomBig(t *testing.T) {
 		Check:      checkSchema(false),
 		NonTrivial: rich,
 		Classes:    classes,
-		Quick:      80, Thorough: 1500,
+		Quick:      150, Thorough: 2500,
 	})
 }
 
